@@ -140,6 +140,11 @@ type CronJob struct {
 
 	// Err holds the error returned by the last invocation of Fn.
 	Err error
+
+	// removed is set (under the Cron's lock) when the job is
+	// removed or replaced while its Fn is running, so that it does
+	// not re-schedule itself when Fn returns.
+	removed bool
 }
 
 // Timeline is the time-order list of pending CronJobs.
@@ -192,6 +197,11 @@ type Cron struct {
 	// Rem, a recurring job's re-scheduling), does not arm the
 	// timer of a suspended instance.
 	suspended bool
+
+	// running holds the jobs whose Fn is running: they are off the
+	// Timeline until they re-schedule themselves.  Guarded by the
+	// mutex.
+	running []*CronJob
 }
 
 // NewCron creates a new Cron instanced.
@@ -212,7 +222,8 @@ func NewCron(broadcaster *CronBroadcaster, pause time.Duration, name string, lim
 		pause,
 		name,
 		limit,
-		false}
+		false,
+		nil}
 
 	return c, nil
 }
@@ -348,6 +359,7 @@ LOOP:
 				if ready {
 					// Danger.  ToDo: Be more careful
 					c.Timeline = c.Timeline[1:]
+					c.running = append(c.running, job)
 					go func(job *CronJob) {
 						c.run(ctx, job)
 					}(job)
@@ -380,10 +392,27 @@ func (c *Cron) run(ctx *core.Context, job *CronJob) {
 		job.Err = err
 	}
 	if once {
+		c.Lock()
+		c.finished(job)
+		c.Unlock()
 	} else {
 		// ToDo: Consider an error here.
 		c.schedule(ctx, job, false)
 	}
+}
+
+// finished takes the job off the list of running jobs and reports
+// whether it was removed or replaced while it was running.
+//
+// Assumes we have the lock.
+func (c *Cron) finished(job *CronJob) bool {
+	for at, running := range c.running {
+		if running == job {
+			c.running = append(c.running[:at], c.running[at+1:]...)
+			break
+		}
+	}
+	return job.removed
 }
 
 func (c *Cron) stopTimer() {
@@ -465,6 +494,15 @@ func (c *Cron) schedule(ctx *core.Context, job *CronJob, checkLimit bool) error 
 	}
 
 	c.Lock()
+
+	if !checkLimit {
+		// A recurring job re-schedules itself after a run (see
+		// run), unless it was removed or replaced meanwhile.
+		if c.finished(job) {
+			c.Unlock()
+			return nil
+		}
+	}
 
 	// Check the limit before touching the timeline, so that a
 	// refused request has no effect.  A pending job with the same
@@ -584,6 +622,16 @@ func (c *Cron) rem(ctx *core.Context, id string) (bool, error) {
 			c.Timeline = c.Timeline[0 : len(c.Timeline)-1]
 			found = true
 			break
+		}
+	}
+	// A job whose Fn is running is not on the timeline.  Mark it, so
+	// that it does not come back when Fn returns.
+	for _, job := range c.running {
+		if job.Id == id && !job.removed {
+			job.removed = true
+			if !job.Once() {
+				found = true
+			}
 		}
 	}
 	if !found {
